@@ -517,6 +517,8 @@ class Options:
     path_timeout_s: int = 300  # wall-clock cap per path (a concrete non-terminating loop ends as inconclusive)
     lazy_nonlinear: bool = True
     hashcons_timeout_ms: int = 1000  # budget of one "are these two radicands equal on this path" query
+    crosscheck_mod: int = 0  # > 0: every obligation whose hash is 0 modulo this number is re-decided by cvc5 (thorough tier)
+    crosscheck_seed: int = 0
     sym_hash: bool = False  # symbolic reals hash to one bucket (dict look-ups among symbolic keys fork on ==)
     merge_clip: bool = False  # np.clip values as if-then-else terms instead of forking
     merge_minmax: bool = False  # np.min/np.max values as if-then-else terms instead of forking on the order of the elements
@@ -542,6 +544,7 @@ class SymCtx:
         self.unknown_branches = 0
         self._sqrts: list[tuple[Any, Any]] = []
         self._sqrt_factors: list = []
+        self.xcheck = {"checked": 0, "agree": 0, "unknown": 0, "disagree": 0}
         self._trigs: list[tuple[Any, Any, Any]] = []
         self._acos: list[tuple[Any, Any]] = []
         self._pi = None
@@ -1088,11 +1091,20 @@ class SymCtx:
                 sv.add(z3.And(v >= -16, v <= 16, z3.Or(v == 0, v >= z3.Q(1, 16), v <= z3.Q(-1, 16))))
         if z3.is_eq(goal) and z3.is_real(goal.arg(0)):
             d = goal.arg(0) - goal.arg(1)
+            b = goal.arg(1)
             sv.push()
             sv.add(z3.Or(d >= z3.Q(1, 50), d <= z3.Q(-1, 50)))
             r = sv.check()
             if r != z3.sat:
                 sv.pop()
+                r = sv.check()
+            if r != z3.sat:
+                # small-scale inputs: any magnitudes, but a violation of at least 1 % of the expected value
+                sv = z3.Solver()
+                sv.set("timeout", 15000)
+                sv.add(chosen)
+                sv.add(z3.Not(goal))
+                sv.add(z3.Or(z3.And(b > 0, z3.Or(d * 100 >= b, d * 100 <= -b)), z3.And(b < 0, z3.Or(d * 100 >= -b, d * 100 <= b))))
                 r = sv.check()
         else:
             r = sv.check()
@@ -1112,6 +1124,37 @@ class SymCtx:
         return out
 
     def _decide0(self, goal):
+        r = self._decide1(goal)
+        if r[0] == z3.unsat and self.opts.crosscheck_mod > 0 and not z3.is_true(goal):
+            self._crosscheck(goal)
+        return r
+
+    def _crosscheck(self, goal):
+        """Second opinion (DESIGN 2.3): a deterministic sample of the discharged obligations is re-decided by cvc5 on the SMT-LIB
+        dump of the same query (cone of the path condition and the negated goal). `sat` from cvc5 is a disagreement (harness error)."""
+        import hashlib
+
+        h = int(hashlib.sha1(goal.sexpr().encode()).hexdigest()[:8], 16)
+        if (h + self.opts.crosscheck_seed) % self.opts.crosscheck_mod != 0:
+            return
+        chosen, _ = self._cone([goal])
+        sv = z3.Solver()
+        sv.add(chosen)
+        sv.add(z3.Not(goal))
+        try:
+            res = cvc5_check(sv.to_smt2(), 10000)
+        except Exception as e:  # noqa: BLE001 - parser / option problems of the second solver are not verdicts
+            res = "error:" + repr(e)[:80]
+        self.xcheck["checked"] += 1
+        if res == "unsat":
+            self.xcheck["agree"] += 1
+        elif res == "sat":
+            self.xcheck["disagree"] += 1
+            self.notes.append("cvc5-disagrees:" + goal.sexpr()[:200])
+        else:
+            self.xcheck["unknown"] += 1
+
+    def _decide1(self, goal):
         if z3.is_true(goal):
             return z3.unsat, None, ""
         if not getattr(self, "_skip_incremental", False) and not self.nonlinear:
@@ -1212,6 +1255,26 @@ class SymCtx:
 
 _VARS_CACHE: dict = {}
 _SQRT_CACHE: dict = {}
+
+
+def cvc5_check(smt2: str, timeout_ms: int = 10000):
+    import cvc5
+
+    slv = cvc5.Solver()
+    slv.setOption("tlimit-per", str(timeout_ms))
+    slv.setLogic("ALL")
+    p = cvc5.InputParser(slv)
+    p.setStringInput(cvc5.InputLanguage.SMT_LIB_2_6, smt2, "q")
+    sm = p.getSymbolManager()
+    res = None
+    while True:
+        cmd = p.nextCommand()
+        if cmd.isNull():
+            break
+        out = str(cmd.invoke(slv, sm)).strip()
+        if out in ("sat", "unsat", "unknown"):
+            res = out
+    return res
 
 
 def _squares(e):
@@ -1411,6 +1474,8 @@ def run_path(fn: Callable, params: dict, prefix: list, opts: Options, want_witne
             status = "abort"
         if r != z3.sat:
             witness = None
+    if c.xcheck["checked"]:
+        c.notes.append("xcheck:%d:%d:%d:%d" % (c.xcheck["checked"], c.xcheck["agree"], c.xcheck["unknown"], c.xcheck["disagree"]))
     outs = {k: _render(v, c) for k, v in c.outputs.items()} if status == "ok" else None
     pr = PathResult(status, c.trace, c.obligations, c.notes, c.queries, c.solver_s, len(c.trace), witness, outs, msg, c.unknown_branches, c.nonlinear)
     pr.witness_nice = nice
